@@ -10,6 +10,7 @@ import (
 	"github.com/xjslang/xjs/token"
 
 	"xmc/core"
+	"xmc/gen"
 	"xmc/ref"
 )
 
@@ -452,6 +453,20 @@ func c10Run(c *core.Ctx) {
 					}
 				}
 			}
+		}
+	}
+
+	// (1c) scale family: long inputs (long tokens, many lines, long lines)
+	for i, sp := range gen.Scale(c.Thorough()) {
+		if !c.Mine(int64(i)) || c.Tick() {
+			continue
+		}
+		c.Cur(sp.Name)
+		c.Inc("inputs")
+		c.Inc("scale_inputs")
+		if k, d := lexCheck(lb, sp.Src); k != "" && c.ShrinkOK("scale"+k) {
+			pl, _ := json.Marshal(c10Payload{Src: []byte(sp.Src)})
+			c.Violate(core.Violation{Kind: k, Config: "scale", Case: sp.Name, Detail: core.Short(d, 600), Payload: pl, Size: 1000 + len(sp.Src)})
 		}
 	}
 
